@@ -21,6 +21,7 @@ Validity rules respected (read off ``glotaran.parameter.parameter``):
 
 from __future__ import annotations
 
+import functools
 import math
 
 from hypothesis import strategies as st
@@ -116,25 +117,45 @@ def is_numeric_literal(node) -> bool:
     return "lit" in node
 
 
-def trees(refs: list[str], allow_floordiv=True):
-    """Strategy for expression trees over the referable labels ``refs`` (may be empty)."""
-    leaf = st.sampled_from(LITERALS).map(lambda s: {"lit": s})
-    if refs:
-        leaf = st.one_of(st.sampled_from(refs).map(lambda r: {"ref": r}), st.sampled_from(refs).map(lambda r: {"ref": r}), leaf)
+@functools.lru_cache(maxsize=None)
+def _tree_shapes():
+    """Trees whose references are still indices (one strategy object, built once per process)."""
     lit = st.sampled_from(LITERALS).map(lambda s: {"lit": s})
-    divops = ["/", "//"] if allow_floordiv else ["/"]
+    refi = st.integers(0, 63).map(lambda i: {"refi": i})
+    leaf = st.one_of(refi, refi, lit)
 
     def extend(children):
         return st.one_of(
             st.tuples(st.sampled_from(["+", "-", "*"]), children, children).map(lambda t: {"op": t[0], "args": [t[1], t[2]]}),
-            st.tuples(st.sampled_from(divops), children, lit).map(lambda t: {"op": t[0], "args": [t[1], t[2]]}),
+            st.tuples(st.sampled_from(["/", "//"]), children, lit).map(lambda t: {"op": t[0], "args": [t[1], t[2]]}),
             st.tuples(st.sampled_from(["max", "min"]), children, children).map(lambda t: {"fn": t[0], "args": [t[1], t[2]]}),
             st.tuples(st.sampled_from(["abs", "sqrtabs"]), children).map(lambda t: {"fn": t[0], "args": [t[1]]}),
             children.map(lambda c: {"neg": c}),
         )
 
-    # at most 3 nested multiplications of moderate values: results stay finite
-    return st.recursive(leaf, extend, max_leaves=4).filter(lambda t: _depth(t) <= 3 and ("lit" not in t) and not _abs_of_int(t))
+    return st.recursive(leaf, extend, max_leaves=4)
+
+
+def _bind(node, refs):
+    if "refi" in node:
+        return {"ref": refs[node["refi"] % len(refs)]} if refs else {"lit": LITERALS[node["refi"] % len(LITERALS)]}
+    if "lit" in node:
+        return node
+    if "neg" in node:
+        return {"neg": _bind(node["neg"], refs)}
+    out = dict(node)
+    out["args"] = [_bind(a, refs) for a in node["args"]]
+    return out
+
+
+def trees(refs: list[str]):
+    """Strategy for expression trees over the referable labels ``refs`` (may be empty).
+
+    At most 3 nested multiplications of moderate values: results stay finite.  A bare literal is
+    not produced here (purely numeric expressions are drawn separately).
+    """
+    refs = list(refs)
+    return _tree_shapes().map(lambda t: _bind(t, refs)).filter(lambda t: _depth(t) <= 3 and ("lit" not in t) and not _abs_of_int(t))
 
 
 def _maybe_int(node) -> bool:
@@ -182,6 +203,7 @@ def _nested(parts_group, parts_short, depth):
     return st.tuples(st.lists(parts_group, min_size=depth, max_size=depth), parts_short).map(lambda t: ".".join(t[0] + [t[1]]))
 
 
+@functools.lru_cache(maxsize=None)
 def label_lists(mode: str, max_size: int):
     words = st.sampled_from(WORDS)
     anypart = st.sampled_from(WORDS + DIGITS + NA_WORDS + SCI_LOOKING)
@@ -206,6 +228,7 @@ def label_lists(mode: str, max_size: int):
 # floats
 
 
+@functools.lru_cache(maxsize=None)
 def moderate_floats():
     """Realistic magnitudes (incl. decimals with leading zeros such as 0.00051...)."""
     return st.one_of(
@@ -217,6 +240,7 @@ def moderate_floats():
     )
 
 
+@functools.lru_cache(maxsize=None)
 def value_floats(limit: float):
     return st.one_of(
         st.floats(min_value=-limit, max_value=limit, allow_nan=False, allow_infinity=False),
@@ -339,6 +363,7 @@ OPTION_NAMES = {
 }
 
 
+@functools.lru_cache(maxsize=None)
 def _spec_value():
     return st.one_of(
         moderate_floats().map(lambda v: {"t": "float", "v": v}),
